@@ -234,7 +234,7 @@ def run(ctx):
 
 def run_(ctx, model):
     rng = gen.rng_for(ctx.seed, 'c18')
-    for cnum, kind in enumerate(['reblock', 'crop'] * (1 if ctx.quick else 8)):
+    for cnum, kind in enumerate(['reblock', 'crop'] * (ctx.n(1, 8))):
         copy_case(ctx, rng, model, kind, cnum)
     cases = [('numpy', None), ('segy', 'heuristic'), ('segy', 'thorough'), ('segy', 'exhaustive'), ('segy', 'strip'),
              ('segy-const', 'thorough'), ('2d', 'heuristic')]
@@ -282,7 +282,7 @@ def run_(ctx, model):
         if any(o[0] == 'truncate' for o in wl.ops):
             states += list(op_prefix_states(wl.ops))[:-1]
         # byte truncations of the finished file
-        tr = sorted(set([len(full) - 1, len(full) - 4, len(full) - 512, 8192, 8191, 4096] + rng.integers(1, len(full), size=(6 if ctx.quick else 60)).tolist()))
+        tr = sorted(set([len(full) - 1, len(full) - 4, len(full) - 512, 8192, 8191, 4096] + rng.integers(1, len(full), size=(ctx.n(6, 60))).tolist()))
         states += [(f'truncate {L}/{len(full)}', full[:L]) for L in tr if 0 < L < len(full)]
         for label, content in states:
             with open(part, 'wb') as f:
